@@ -8,6 +8,13 @@ ENV = dict(os.environ, GOFLAGS="-mod=mod", GOPROXY="off", GOSUMDB="off", GOTOOLC
 d = sys.argv[1]
 props = None
 tests = "--tests" in sys.argv
+BASE = None
+try:
+    BASE = json.load(open(os.path.join(d, "meta.json")))["what_i_ran"]["tool"].split("commit ")[1].split(";")[0].split(" ")[0]
+except Exception:
+    pass
+for i, a in enumerate(sys.argv):
+    if a == "--base": BASE = sys.argv[i+1]
 for i, a in enumerate(sys.argv):
     if a == "--props": props = sys.argv[i+1].split(",")
 if props is None:
@@ -16,7 +23,15 @@ tmp = tempfile.mkdtemp(prefix="seedchk.")
 dst = os.path.join(tmp, "repo")
 res = {}
 try:
+    head = subprocess.check_output(["git", "-C", "/repo", "rev-parse", "--short", "HEAD"]).decode().strip()
     subprocess.check_call(["rsync", "-a", "--exclude", ".git", "/repo/", dst + "/"])
+    a = subprocess.run(["git", "apply", "--check", "--whitespace=nowarn", os.path.abspath(os.path.join(d, "patch.diff"))], cwd=dst, capture_output=True, text=True)
+    if a.returncode != 0 and BASE and BASE != head:
+        # the seed was made against an older commit of /repo (before later fix: commits): check it on that tree
+        shutil.rmtree(dst); os.makedirs(dst)
+        ar = subprocess.Popen(["git", "-C", "/repo", "archive", BASE], stdout=subprocess.PIPE)
+        subprocess.check_call(["tar", "-x", "-C", dst], stdin=ar.stdout); ar.wait()
+        print("(patch does not apply to HEAD %s; checking on its base commit %s – rules added for later fixes also fire there)" % (head, BASE))
     a = subprocess.run(["git", "apply", "--whitespace=nowarn", os.path.abspath(os.path.join(d, "patch.diff"))], cwd=dst, capture_output=True, text=True)
     if a.returncode != 0:
         print("PATCH DOES NOT APPLY:", a.stderr[:500]); sys.exit(3)
